@@ -31,7 +31,13 @@ def parse_name(name):
             if m3:
                 self_ty, method = m3.group(1), m3.group(2)
             else:
-                parts = re.sub(r"::<[^>]*(?:<[^>]*>[^>]*)*>", "", n).split("::")
+                n2 = n
+                while True:      # strip generic argument lists, innermost first (they may nest and contain commas)
+                    n3 = re.sub(r"(::)?<[^<>]*>", "", n2)
+                    if n3 == n2:
+                        break
+                    n2 = n3
+                parts = n2.split("::")
                 if len(parts) >= 2:
                     self_ty = parts[-2]
                     if len(parts) >= 3 and parts[-3] in ("ops", "cmp") and parts[-2][:1].isupper():
@@ -551,6 +557,10 @@ def iterators(I, st, frame, t, name, self_ty, tys, trait, method, args, ev):
     itv = a0
     if I.refs_of(a0) and "[*]" not in a0.fields:
         itv = D(a0)
+    if "[*]" not in itv.fields and not itv.is_empty() and not I.refs_of(itv) and method in (
+            "map", "filter", "filter_map", "flat_map", "for_each", "try_for_each", "fold", "try_fold", "any", "all", "find", "position", "rev", "take", "skip",
+            "step_by", "enumerate", "zip", "chain", "collect", "sum", "count", "last", "max", "min", "inspect", "scan", "map_while", "take_while", "skip_while"):
+        itv = mk_iter(I.derive(st, [itv], "range"))      # a range used through iterator adaptors: elements derive from its bounds
     if method in ("rev", "skip", "take", "step_by", "fuse", "peekable", "by_ref", "skip_while", "take_while",
                   "chain", "cycle", "filter", "inspect"):
         if method in ("skip_while", "take_while", "filter", "inspect") and len(args) > 1:
